@@ -327,212 +327,9 @@ def vecReplay (prog : List (List String)) (trace : List Item) : String :=
       s!"ok keys={if ks.isEmpty then "-" else "+".intercalate ks}"
     else "incomplete"
 
-/-! ## Histogram: observe / local flush / collect / get_sample_count / get_sample_sum (C02, C03) -/
+/-! ## Histogram (C02, C03): the replay machine is `Prom/Model/HistMachine.lean`, written over the
+state of the proof model `Prom/HP`; this file only provides the constant it shares. -/
 
-/-- the remaining micro-steps of a call -/
-inductive HStep
-  | claim (w : UInt64)                      -- fetch_add on shard_and_count (Acquire); learns the hot shard
-  | bucket (i : Nat) (d : UInt64)           -- fetch_add on a bucket of the learned shard (Relaxed)
-  | sumLoad (d : UInt64)                    -- f64 add to the shard sum: load (Acquire) …
-  | sumCas (cur d : UInt64)                 -- … compare-exchange (Release)
-  | publish (w : UInt64)                    -- fetch_add on the shard count (Release)
-  | lock | flip | spin | swapSum | swapB (i : Nat) | addB (i : Nat) | addCount | hotSumLoad | hotSumCas (cur : UInt64) | unlock
-  | cntLoad | sLock | sLoadSc | sLoadSum | sUnlock
-deriving Repr
-
-structure HPc where
-  todo : List HStep
-  shard : Nat := 0            -- shard learned by the claim / the cold shard of a collect
-  overall : UInt64 := 0
-  sum : UInt64 := 0
-  taken : List UInt64 := []   -- cold bucket counts swapped out so far (newest first)
-  last : UInt64 := 0
-deriving Repr
-
-structure HSt where
-  bounds : List UInt64
-  mem : Mem := []
-  lock : Option Nat := none
-  ths : List (Th HPc)
-  claims : List UInt64 := []     -- ghost: values claimed so far (newest first)
-
-def shardLoc (s : Nat) (f : String) : String := s!"s{s}{f}"
 def top : UInt64 := 0x8000000000000000
-
-def localBatch (bounds : List UInt64) (vals : List UInt64) : List Nat × Nat × UInt64 :=
-  vals.foldl (fun (acc : List Nat × Nat × UInt64) v =>
-    ((match findBucket bounds v with | some i => bumpAt acc.1 i 1 | none => acc.1), acc.2.1 + 1, f64Add acc.2.2 v))
-    (List.replicate bounds.length 0, 0, f64Zero)
-
-def parseVals (s : String) : List UInt64 := (s.splitOn "+").map fun x => f64OfInt (parseIntArg x)
-
-def hPlan (bounds : List UInt64) (op : String) : Option (List HStep) :=
-  let nb := bounds.length
-  match opName op with
-  | "obs" =>
-    let v := f64OfInt (parseIntArg (opArg op))
-    some ([.claim 1] ++ (match findBucket bounds v with | some i => [.bucket i 1] | none => []) ++ [.sumLoad v, .publish 1])
-  | "flush" =>
-    let (counts, n, sum) := localBatch bounds (parseVals (opArg op))
-    if n == 0 then some [] else
-    some ([.claim n.toUInt64] ++ ((counts.zipIdx).filterMap fun (c, i) => if c > 0 then some (.bucket i c.toUInt64) else none)
-          ++ [.sumLoad sum, .publish n.toUInt64])
-  | "collect" =>
-    some ([.lock, .flip, .spin, .swapSum] ++ ((List.range nb).flatMap fun i => [.swapB i, .addB i]) ++ [.addCount, .hotSumLoad, .unlock])
-  | "count" => some [.cntLoad]
-  | "sum" => some [.sLock, .sLoadSc, .sLoadSum, .sUnlock]
-  | _ => none
-
-def showCollect (overall : UInt64) (sum : UInt64) (taken : List UInt64) : String :=
-  let cum := (taken.reverse.foldl (fun (acc : List Nat × Nat) c => (acc.1 ++ [acc.2 + c.toNat], acc.2 + c.toNat)) ([], 0)).1
-  s!"{overall.toNat}/{hexStr sum}/{"+".intercalate (cum.map toString)}"
-
-def hStep (s : HSt) (e : Ev) : Except String HSt :=
-  match s.ths[e.tid]? with
-  | none => .error "no such thread"
-  | some th =>
-    match th.pc with
-    | none => .error "event outside a call"
-    | some pc =>
-      match pc.todo with
-      | [] => .error "event after the call's last step"
-      | st :: rest =>
-        let opv := th.ops.getD th.idx ""
-        let finish (s : HSt) (pc : HPc) (rv : String) : HSt :=
-          if pc.todo.isEmpty then { s with ths := s.ths.set e.tid { th with pc := none, retv := some rv } }
-          else { s with ths := s.ths.set e.tid { th with pc := some pc } }
-        let expect (k loc ord : String) (cont : Except String HSt) : Except String HSt :=
-          if e.k == k && e.loc == loc && (ord == "" || ordGe e.ord ord) then cont
-          else .error s!"{opv}: expected {k} {loc} {ord}, got {e.k} {e.loc} {e.ord}"
-        let old (loc : String) (cont : Except String HSt) : Except String HSt :=
-          if e.res == s.mem.get loc then cont else .error s!"{opv}: {loc} holds {hexStr (s.mem.get loc)} in the model, the implementation saw {hexStr e.res}"
-        match st with
-        | .claim w =>
-          expect "A" "sc" "Acquire" <| old "sc" <|
-            if e.a != w then .error s!"{opv}: claim of weight {hexStr e.a}, expected {hexStr w}" else
-            let sh := if e.res ≥ top then 1 else 0
-            let vals := if opName opv == "obs" then [f64OfInt (parseIntArg (opArg opv))] else parseVals (opArg opv)
-            .ok (finish { s with mem := s.mem.set "sc" (e.res + w), claims := vals.reverse ++ s.claims } { pc with todo := rest, shard := sh } "")
-        | .bucket i d =>
-          let loc := shardLoc pc.shard s!"b{i}"
-          expect "A" loc "Relaxed" <| old loc <|
-            if e.a != d then .error s!"{opv}: bucket increment {hexStr e.a}, expected {hexStr d}" else
-            .ok (finish { s with mem := s.mem.set loc (e.res + d) } { pc with todo := rest } "")
-        | .sumLoad d =>
-          let loc := shardLoc pc.shard "s"
-          expect "L" loc "Acquire" <| old loc <| .ok (finish s { pc with todo := .sumCas e.res d :: rest } "")
-        | .sumCas cur d =>
-          let loc := shardLoc pc.shard "s"
-          let nv := f64Add cur d
-          expect "C" loc "Release" <|
-            if e.a != cur || e.b != nv then .error s!"{opv}: sum cas {hexStr e.a}->{hexStr e.b}, expected {hexStr cur}->{hexStr nv}" else
-            if e.ok then
-              if s.mem.get loc != cur then .error "sum cas succeeded on a changed value" else
-              .ok (finish { s with mem := s.mem.set loc nv } { pc with todo := rest } "")
-            else old loc <| .ok (finish s { pc with todo := .sumLoad d :: rest } "")
-        | .publish w =>
-          let loc := shardLoc pc.shard "c"
-          expect "A" loc "Release" <| old loc <|
-            if e.a != w then .error "publish weight" else
-            .ok (finish { s with mem := s.mem.set loc (e.res + w) } { pc with todo := rest } "")
-        | .lock =>
-          expect "K" "lk" "" <|
-            if s.lock.isSome then .error "collect lock granted while held" else
-            .ok (finish { s with lock := some e.tid } { pc with todo := rest } "")
-        | .flip =>
-          expect "A" "sc" "AcqRel" <| old "sc" <|
-            if e.a != top then .error "flip operand" else
-            let cold := if e.res ≥ top then 1 else 0
-            .ok (finish { s with mem := s.mem.set "sc" (e.res + top) } { pc with todo := rest, shard := cold, overall := e.res &&& 0x7FFFFFFFFFFFFFFF } "")
-        | .spin =>
-          let loc := shardLoc pc.shard "c"
-          expect "C" loc "Acquire" <|
-            if e.a != pc.overall || e.b != 0 then .error s!"{opv}: spin compares {hexStr e.a}, the count at the flip was {hexStr pc.overall}" else
-            if e.ok then
-              if s.mem.get loc != pc.overall then .error "spin succeeded before the cold shard was complete" else
-              .ok (finish { s with mem := s.mem.set loc 0 } { pc with todo := rest } "")
-            else old loc <| .ok (finish s pc "")
-        | .swapSum =>
-          let loc := shardLoc pc.shard "s"
-          expect "W" loc "AcqRel" <| old loc <|
-            if e.a != 0 then .error "swap sum operand" else
-            .ok (finish { s with mem := s.mem.set loc 0 } { pc with todo := rest, sum := e.res } "")
-        | .swapB i =>
-          let loc := shardLoc pc.shard s!"b{i}"
-          expect "W" loc "AcqRel" <| old loc <|
-            .ok (finish { s with mem := s.mem.set loc 0 } { pc with todo := rest, taken := e.res :: pc.taken, last := e.res } "")
-        | .addB i =>
-          let loc := shardLoc (1 - pc.shard) s!"b{i}"
-          expect "A" loc "Relaxed" <| old loc <|
-            if e.a != pc.last then .error "hot bucket merge amount" else
-            .ok (finish { s with mem := s.mem.set loc (e.res + pc.last) } { pc with todo := rest } "")
-        | .addCount =>
-          let loc := shardLoc (1 - pc.shard) "c"
-          expect "A" loc "Relaxed" <| old loc <|
-            if e.a != pc.overall then .error "hot count merge amount" else
-            .ok (finish { s with mem := s.mem.set loc (e.res + pc.overall) } { pc with todo := rest } "")
-        | .hotSumLoad =>
-          let loc := shardLoc (1 - pc.shard) "s"
-          expect "L" loc "Acquire" <| old loc <| .ok (finish s { pc with todo := .hotSumCas e.res :: rest } "")
-        | .hotSumCas cur =>
-          let loc := shardLoc (1 - pc.shard) "s"
-          let nv := f64Add cur pc.sum
-          expect "C" loc "Release" <|
-            if e.a != cur || e.b != nv then .error "hot sum merge cas operands" else
-            if e.ok then
-              if s.mem.get loc != cur then .error "hot sum cas succeeded on a changed value" else
-              .ok (finish { s with mem := s.mem.set loc nv } { pc with todo := rest } "")
-            else old loc <| .ok (finish s { pc with todo := .hotSumLoad :: rest } "")
-        | .unlock =>
-          expect "k" "lk" "" <|
-            if s.lock != some e.tid then .error "unlock by a thread that does not hold the lock" else
-            .ok (finish { s with lock := none } { pc with todo := rest } (showCollect pc.overall pc.sum pc.taken))
-        | .cntLoad =>
-          expect "L" "sc" "Relaxed" <| old "sc" <|
-            .ok (finish s { pc with todo := rest } (toString (e.res &&& 0x7FFFFFFFFFFFFFFF).toNat))
-        | .sLock =>
-          expect "K" "lk" "" <|
-            if s.lock.isSome then .error "collect lock granted while held" else
-            .ok (finish { s with lock := some e.tid } { pc with todo := rest } "")
-        | .sLoadSc =>
-          expect "L" "sc" "Relaxed" <| old "sc" <| .ok (finish s { pc with todo := rest, shard := if e.res ≥ top then 1 else 0 } "")
-        | .sLoadSum =>
-          let loc := shardLoc pc.shard "s"
-          expect "L" loc "Relaxed" <| old loc <| .ok (finish s { pc with todo := rest, sum := e.res } "")
-        | .sUnlock =>
-          expect "k" "lk" "" <| .ok (finish { s with lock := none } { pc with todo := rest } (hexStr pc.sum))
-
-def hItem (s : HSt) : Item → Except String HSt
-  | .ev e => hStep s e
-  | .call t i op =>
-    match s.ths[t]? with
-    | none => .error "no such thread"
-    | some th =>
-      match hPlan s.bounds op with
-      | none => .error s!"unknown op {op}"
-      | some plan =>
-        match openCall th i op (fun _ => some { todo := plan }) (fun _ => plan.isEmpty) with
-        | .ok th' => .ok { s with ths := s.ths.set t th' }
-        | .error e => .error e
-  | .ret t i v =>
-    match s.ths[t]? with
-    | none => .error "no such thread"
-    | some th => match closeCall th i v with
-      | .ok th' => .ok { s with ths := s.ths.set t th' }
-      | .error e => .error e
-  | .other x => .error s!"unparsed trace item {x}"
-
-/-- stats of everything claimed, as a final quiescent collect must report them -/
-def finalStats (s : HSt) : String :=
-  let vals := s.claims.reverse
-  let h := (Hist.new s.bounds).observeAll f64Add vals
-  -- the sum the code holds is the merge order's sum; for the integer-valued runs it is exact
-  s!"{h.count}/{hexStr h.sum}/{"+".intercalate (h.snap.cum.map toString)}"
-
-def histReplay (bounds : List UInt64) (prog : List (List String)) (trace : List Item) : String :=
-  let s0 : HSt := { bounds := bounds, ths := prog.map fun ops => { ops := ops } }
-  match runItems hItem s0 trace 0 with
-  | .error e => e
-  | .ok s => if allDone s.ths then s!"ok final={finalStats s}" else "incomplete"
 
 end Prom.Conc
